@@ -86,6 +86,15 @@ func (d *memDriver) fail(op string) error {
 		d.b.fired = true
 
 		return &faultErr{gcerrors.Internal, "verifmem: storage service internal error"}
+	case op + "-denied":
+		// e.g. an expired SAS token or a rotated access key: the service is there, the request is refused
+		d.b.fired = true
+
+		return &faultErr{gcerrors.PermissionDenied, "verifmem: authentication failed"}
+	case op + "-exhausted":
+		d.b.fired = true
+
+		return &faultErr{gcerrors.ResourceExhausted, "verifmem: too many requests"}
 	}
 
 	return nil
@@ -227,17 +236,17 @@ type blobSystem struct {
 func newBlobSystem(variant string, thorough bool) *blobSystem {
 	s := &blobSystem{variant: variant, thorough: thorough}
 	s.contents = []string{cV1, cV2, cRJ, cEmpty, cInv}
-	s.faults = []string{"list-communication", "list-timeout", "attributes-communication", "read-communication", "list-internal"}
+	s.faults = []string{"list-communication", "list-timeout", "attributes-communication", "read-communication", "list-internal", "list-denied"}
 	s.keys = []string{"a.yaml", "b.yaml"}
 
 	if variant == "single-blob" {
 		s.keys = []string{"a.yaml"}
-		s.faults = []string{"attributes-communication", "attributes-timeout", "read-communication", "attributes-internal"}
+		s.faults = []string{"attributes-communication", "attributes-timeout", "read-communication", "attributes-internal", "attributes-denied"}
 	}
 
 	if thorough {
 		s.contents = append(s.contents, cBad)
-		s.faults = append(s.faults, "read-timeout", bOpen)
+		s.faults = append(s.faults, "read-timeout", bOpen, "read-denied", "list-exhausted")
 	}
 
 	return s
@@ -394,6 +403,8 @@ func (i *blobInst) Apply(a Action) stepReport {
 			return obs{class: oTransport}
 		case strings.HasSuffix(a.C, "-timeout"):
 			return obs{class: oTimeout}
+		case strings.HasSuffix(a.C, "-denied") || strings.HasSuffix(a.C, "-exhausted"):
+			return obs{class: oRefused}
 		default:
 			return obs{class: oInternal}
 		}
@@ -478,7 +489,7 @@ func (i *blobInst) Apply(a Action) stepReport {
 	// an OnDeleted aimed at a blob although the storage merely could not be reached (H20); the wrong source id
 	// may make it ineffective, the intention is what the statement forbids
 	for _, k := range i.sys.keys {
-		if o := observe(k); (o.class == oTransport || o.class == oTimeout) && beforeAll[i.src(k)] != "" {
+		if o := observe(k); (o.class == oTransport || o.class == oTimeout || o.class == oRefused) && beforeAll[i.src(k)] != "" {
 			for _, c := range calls {
 				if c.Op == "OnDeleted" && strings.HasSuffix(c.Src, i.src(k)) {
 					rep.Violations = append(rep.Violations, violation{
